@@ -1,3 +1,132 @@
-/-! # C11 — (stub: property theorems go here; see docs/BUILDING.md) -/
+import PtVerif.Proofs.Mix
+import PtVerif.Generated.FormulaConsts
+/-!
+# C11 — mixtures keep the requested mass or volume proportions and a consistent density
+
+Model: `Model/Mix.lean` (`_mix_by_weight_pairs`, `_mix_by_volume_pairs`, and the parse actions
+of the mixture sub-grammars).  `α` is any linearly ordered field (ℚ, ℝ).  `kept pairs` are
+the components with positive quantity; `am` gives atomic masses.
+
+Hypotheses `0 < mass` / `0 < density` are the guards of the real code's divisions
+(a component with zero mass or density makes the real code raise ZeroDivisionError / ValueError).
+-/
 namespace PtVerif.C11
+open PtModel
+
+variable {α : Type} [Field α] [LinearOrder α] [IsStrictOrderedRing α]
+
+/-- by weight, component `p` enters with multiplier `(q/m)/scale`, so its mass inside the mixture
+    is `q/scale`: masses are in the ratio of the given quantities -/
+theorem weight_masses_in_ratio (am : Atom → α) (sc : α) (p₁ p₂ : FVal α × α)
+    (h₁ : p₁.1.mass am ≠ 0) (h₂ : p₂.1.mass am ≠ 0) (hs : sc ≠ 0) :
+    (rmulS ((p₁.2 / p₁.1.mass am) / sc) p₁.1.s).flatMass am * p₂.2
+      = (rmulS ((p₂.2 / p₂.1.mass am) / sc) p₂.1.s).flatMass am * p₁.2 := by
+  rw [weight_component_mass am sc p₁ h₁ hs, weight_component_mass am sc p₂ h₂ hs]; ring
+
+/-- by volume, its volume (mass/density) is `q/scale`: volumes are in the ratio of the quantities -/
+theorem volume_volumes_in_ratio (am : Atom → α) (sc : α) (p₁ p₂ : FVal α × α)
+    (h₁ : p₁.1.mass am ≠ 0) (h₂ : p₂.1.mass am ≠ 0) (d₁ : p₁.1.dens ≠ 0) (d₂ : p₂.1.dens ≠ 0) (hs : sc ≠ 0) :
+    (rmulS ((p₁.2 * p₁.1.dens / p₁.1.mass am) / sc) p₁.1.s).flatMass am / p₁.1.dens * p₂.2
+      = (rmulS ((p₂.2 * p₂.1.dens / p₂.1.mass am) / sc) p₂.1.s).flatMass am / p₂.1.dens * p₁.2 := by
+  rw [volume_component_volume am sc p₁ h₁ d₁ hs, volume_component_volume am sc p₂ h₂ d₂ hs]; ring
+
+/-- the mixture by weight is exactly the accumulation of those multiples, its total mass `Σq/scale`
+    and its atom counts the multiplier-weighted sums of the components' counts -/
+theorem weight_mixture (am : Atom → α) (pairs : List (FVal α × α)) (hne : kept pairs ≠ [])
+    (hm : ∀ p ∈ kept pairs, 0 < p.1.mass am) :
+    (mixByWeight am pairs).s = weightStruct am (kept pairs) ∧
+    (mixByWeight am pairs).mass am = ((kept pairs).map (·.2)).sum / weightScale am (kept pairs) ∧
+    ∀ a, lookupD (mixByWeight am pairs).s.atoms a =
+      ((kept pairs).map fun p => p.1.s.cnt a *
+        ((p.2 / p.1.mass am) / weightScale am (kept pairs))).sum := by
+  have hs := (weightScale_pos am (kept pairs) hne (kept_pos pairs) hm).ne'
+  rw [mixByWeight_of_ne am pairs hne]
+  refine ⟨rfl, ?_, fun a => weightStruct_counts am _ a⟩
+  exact weightStruct_mass am _ hs (fun p hp => (hm p hp).ne')
+
+/-- the scale is positive (so every multiplier is defined and the smallest one is 1) -/
+theorem weight_scale_pos (am : Atom → α) (pairs : List (FVal α × α)) (hne : kept pairs ≠ [])
+    (hm : ∀ p ∈ kept pairs, 0 < p.1.mass am) : 0 < weightScale am (kept pairs) :=
+  weightScale_pos am (kept pairs) hne (kept_pos pairs) hm
+
+/-- components with zero quantity vanish (by weight and by volume) -/
+theorem zero_quantity_vanishes (am : Atom → α) (pairs : List (FVal α × α)) :
+    mixByWeight am pairs = mixByWeight am (kept pairs) ∧
+    mixByVolume am pairs = mixByVolume am (kept pairs) :=
+  ⟨mixByWeight_drops_zero am pairs, mixByVolume_drops_zero am pairs⟩
+
+/-- when all component densities are known the density by weight is total mass over total
+    volume, `Σ qᵢ / Σ (qᵢ/ρᵢ)`; otherwise it is left unknown -/
+theorem weight_density (am : Atom → α) (pairs : List (FVal α × α)) (hne : kept pairs ≠ [])
+    (hm : ∀ p ∈ kept pairs, 0 < p.1.mass am) :
+    ((kept pairs).all (fun p => p.1.hasDensity) = true →
+      (mixByWeight am pairs).density =
+        some (((kept pairs).map (·.2)).sum / ((kept pairs).map fun p => p.2 / p.1.dens).sum)) ∧
+    ((kept pairs).all (fun p => p.1.hasDensity) = false → (mixByWeight am pairs).density = none) := by
+  have hs := (weightScale_pos am (kept pairs) hne (kept_pos pairs) hm).ne'
+  rw [mixByWeight_of_ne am pairs hne]
+  exact ⟨fun hd => weightDensity_eq am _ hs (fun p hp => (hm p hp).ne') hd,
+         fun hd => weightDensity_unknown am _ hd⟩
+
+/-- by volume: every density must be known (else ValueError), and the mixture density is total
+    mass over total volume, `Σ qᵢρᵢ / Σ qᵢ` -/
+theorem volume_mixture (am : Atom → α) (pairs : List (FVal α × α)) (hne : kept pairs ≠ [])
+    (hm : ∀ p ∈ kept pairs, 0 < p.1.mass am) (hρ : ∀ p ∈ kept pairs, 0 < p.1.dens)
+    (hd : (kept pairs).all (fun p => p.1.hasDensity) = true) :
+    mixByVolume am pairs = some ⟨volumeStruct am (kept pairs),
+      some (((kept pairs).map fun p => p.2 * p.1.dens).sum / ((kept pairs).map (·.2)).sum)⟩ := by
+  have hs := (volumeScale_pos am (kept pairs) hne (kept_pos pairs) hm hρ).ne'
+  rw [mixByVolume_of_ne am pairs hne hd, volumeDensity_eq am _ hs (fun p hp => (hm p hp).ne')]
+
+theorem volume_needs_every_density (am : Atom → α) (pairs : List (FVal α × α))
+    (hd : (kept pairs).all (fun p => p.1.hasDensity) = false) : mixByVolume am pairs = none :=
+  mixByVolume_needs_density am pairs hd
+
+/-- the result does not depend on how a component's formula unit is scaled: what a component
+    contributes per unit mass (`counts/mass`) is the same for `k*f` as for `f`, and the density
+    formulas above do not mention the structure at all -/
+theorem formula_unit_scaling_invariant (am : Atom → α) (k : α) (hk : k ≠ 0) (f : FVal α)
+    (hm : f.mass am ≠ 0) (a : Atom) :
+    (f.scaled k).s.cnt a / (f.scaled k).mass am = f.s.cnt a / f.mass am ∧
+    (f.scaled k).density = f.density :=
+  ⟨per_mass_composition_invariant am k hk f hm a, rfl⟩
+
+/-- only proportions matter: the absolute-mass and layer forms convert their quantities to
+    percentages (a common factor `100/total`), which changes nothing -/
+theorem common_factor_invariant (am : Atom → α) (c : α) (hc : 0 < c) (pairs : List (FVal α × α))
+    (hne : kept pairs ≠ []) (hm : ∀ p ∈ kept pairs, 0 < p.1.mass am) :
+    mixByWeight am (scaleQ c pairs) = mixByWeight am pairs :=
+  mixByWeight_scaleQ am c hc pairs (weightScale_pos am (kept pairs) hne (kept_pos pairs) hm).ne'
+
+/-- percentages leave the remainder to the last component; a negative remainder is rejected -/
+theorem percent_remainder_to_last (parts : List (α × FVal α)) (base : FVal α) :
+    percentPairs parts base =
+      if ((100 : Nat) : α) - (parts.map (·.1)).sum < 0 then none
+      else some (parts.map (fun p => (p.2, p.1)) ++ [(base, ((100 : Nat) : α) - (parts.map (·.1)).sum)]) := by
+  unfold percentPairs; rw [sumOf_eq]
+
+/-- `total_mass` and `thickness` record the stated absolute amount -/
+theorem absolute_amount_recorded (am : Atom → α) (parts : List (α × FVal α)) :
+    (byAbsMass am parts).2 = (parts.map (·.1)).sum ∧
+    ∀ r, byLayer am parts = some r → r.2 = (parts.map (·.1)).sum := by
+  refine ⟨by unfold byAbsMass; rw [sumOf_eq], ?_⟩
+  intro r hr
+  unfold byLayer at hr
+  rw [Option.map_eq_some_iff] at hr
+  obtain ⟨x, _, rfl⟩ := hr
+  rw [sumOf_eq]
+
+/-- every documented unit (kg g mg ug ng; L mL uL nL; cm mm um nm) is in the tables
+    regenerated from formulas.py, with its SI factor -/
+theorem all_units_present :
+    PtGen.massUnits = [("ng", 1, 1000000000), ("ug", 1, 1000000), ("mg", 1, 1000), ("g", 1, 1), ("kg", 1000, 1)] ∧
+    PtGen.volumeUnits = [("nL", 1, 1000000000), ("uL", 1, 1000000), ("mL", 1, 1000), ("L", 1, 1)] ∧
+    PtGen.lengthUnits = [("nm", 1, 1000000000), ("um", 1, 1000000), ("mm", 1, 1000), ("cm", 1, 100)] := by
+  decide
+
+/-! non-vacuity: two components with positive mass and quantity -/
+example : kept [((⟨Items.cons 1 (.atom ⟨26,0,0⟩) .nil, some 7⟩ : FVal ℚ), (2 : ℚ)),
+    (⟨Items.cons 1 (.atom ⟨28,0,0⟩) .nil, some 8⟩, 0), (⟨Items.cons 1 (.atom ⟨24,0,0⟩) .nil, none⟩, 3)] ≠ [] := by
+  decide
+
 end PtVerif.C11
